@@ -563,7 +563,13 @@ func extend(o oset, f string) oset {
 		case oFresh, oAny:
 			r[k] = true
 		default:
-			r[k+"."+f] = true
+			// bounded naming: below depth 5, or when the field already occurs in the path (recursive
+			// structure), the sub-object keeps the name of its ancestor
+			if strings.Count(k, ".") >= 6 || strings.HasSuffix(k, "."+f) || strings.Contains(k, "."+f+".") {
+				r[k] = true
+			} else {
+				r[k+"."+f] = true
+			}
 		}
 	}
 	return r
